@@ -354,7 +354,7 @@ func (r *Resolver) onSetOrList(g *Scope, name string, t *parser.Type, v *parser.
 			if err != nil {
 				return "", err
 			}
-			ss = append(ss, str+",")
+			ss = append(ss, r.valueInContainer(et, str)+",")
 		}
 		if len(ss) == 0 {
 			return goType + "{}", nil
@@ -399,7 +399,7 @@ func (r *Resolver) onMap(g *Scope, name string, t *parser.Type, v *parser.ConstV
 			if err != nil {
 				return "", err
 			}
-			kvs = append(kvs, fmt.Sprintf("%s: %s,", key, val))
+			kvs = append(kvs, fmt.Sprintf("%s: %s,", key, r.valueInContainer(vt, val)))
 		}
 		if len(kvs) == 0 {
 			return goType + "{}", nil
@@ -414,6 +414,19 @@ func (r *Resolver) onMap(g *Scope, name string, t *parser.Type, v *parser.ConstV
 	}
 	// fault tolerance
 	return goType + "{}", nil
+}
+
+// valueInContainer adapts the literal of a list/set element or map value to
+// value_type_in_container, under which struct-likes are stored by value:
+// "&T{...}" becomes "T{...}" and the name of a constant (a *T) is dereferenced.
+func (r *Resolver) valueInContainer(et *parser.Type, val string) string {
+	if !et.Category.IsStructLike() || !r.util.Features().ValueTypeForSIC {
+		return val
+	}
+	if strings.HasPrefix(val, "&") {
+		return val[1:]
+	}
+	return "*" + val
 }
 
 // elemScopeAndType returns the key (or element) type of the container type t
